@@ -386,7 +386,41 @@ def circumcenter_model_stream(ctx, n):
             ctx.disagree("C17:model:circumcenter2", desc, ans[:200], r[1:3] if r[0] != "ok" else np.asarray(r[1].array).tolist(), replay=[desc])
 
 
+def collinear_start_stream(ctx, n, prefix="C17"):
+    """polygons of space whose vertex cycle STARTS with three collinear vertices (a vertex in the middle of a side): area,
+    membership and equality are those of the same cycle started at another vertex — single polygons and collections"""
+    import geometer as g
+    rng = ctx.rng
+    for k in range(n):
+        a, b = rng.randint(2, 4), rng.randint(2, 4)
+        o = [rng.randint(-3, 3), rng.randint(-3, 3)]
+        t1, t2, h = rng.choice([0, 1, -1]), rng.choice([0, 2, 1]), rng.randint(-2, 3)
+        flat = [(o[0], o[1]), (o[0] + 1, o[1]), (o[0] + a, o[1]), (o[0] + a, o[1] + b), (o[0], o[1] + b)]      # (o+1, o) lies on the first side
+        lift = lambda q: [float(q[0]), float(q[1]), float(h + t1 * q[0] + t2 * q[1]), 1.0]
+        verts = [lift(q) for q in flat]
+        r = rng.randrange(1, 5)
+        rolled = verts[r:] + verts[:r]
+        centre = lift((o[0] + a / 2, o[1] + b / 2))
+        outside = lift((o[0] + a + 1, o[1] + b / 2))
+        desc = f"polygon of space {[v[:3] for v in verts]} (first three vertices collinear) vs the cycle started at vertex {r}"
+        ctx.case(desc)
+        ctx.count("collinear-start")
+        def run():
+            if k % 3 == 2:
+                P = g.PolygonCollection(np.array([verts, rolled]))
+                return [float(x) for x in P.area], [bool(x) for x in P.contains(g.Point(np.array(centre)))], [bool(x) for x in P.contains(g.Point(np.array(outside)))], True
+            P, Q = g.Polygon(np.array(verts)), g.Polygon(np.array(rolled))
+            return [float(P.area), float(Q.area)], [bool(P.contains(g.Point(np.array(centre)))), bool(Q.contains(g.Point(np.array(centre))))], \
+                [bool(P.contains(g.Point(np.array(outside)))), bool(Q.contains(g.Point(np.array(outside))))], bool(P == Q)
+        res = call_impl(run)
+        exp_area = a * b * math.sqrt(1 + t1 * t1 + t2 * t2)
+        ok = res[0] == "ok" and all(abs(x - exp_area) <= 1e-9 * exp_area for x in res[1][0]) and res[1][1] == [True, True] and res[1][2] == [False, False] and res[1][3]
+        if not ok:
+            ctx.disagree(f"{prefix}:polygon3:collinear-start", desc, ([exp_area, exp_area], [True, True], [False, False], True), res[1:3] if res[0] != "ok" else res[1], replay=[desc])
+
+
 def correspondence(ctx):
+    collinear_start_stream(ctx, ctx.budget(15, 150))
     circumcenter_model_stream(ctx, ctx.budget(60, 600))
     expand_dims_measures_stream(ctx, ctx.budget(15, 150))
     repeated_vertex_eq_stream(ctx, ctx.budget(30, 300))
